@@ -191,7 +191,16 @@ class Slicer:
         if v[0] in ('const', 'param', 'fnitem', 'constitem', 'unknown', 'closure_env', 'upvar'):
             return v
         out = tuple(self.inline_deep(x, depth, keep) if isinstance(x, tuple) else x for x in v)
-        return out if out != v else v
+        if out == v:
+            return v
+        # re-normalise what the substitution exposed
+        if out[0] == 'unwrap':
+            return self.mk_unwrap(out[1], 1)
+        if out[0] == 'field':
+            return self._field(out[1], out[2])
+        if out[0] == 'variant':
+            return self._variant(out[1], out[2])
+        return out
 
     def apply_closure(self, clv, args):
         """value returned by calling closure / fn item clv with the given argument values, or None"""
@@ -337,6 +346,11 @@ class Slicer:
                     return r
         if d > 0 and v[0] == 'agg' and v[2] in ('Ok', 'Some') and v[1] in ('std::result::Result', 'std::option::Option') and len(v[3]) == 1:
             return v[3][0][1]
+        if d > 0 and v[0] == 'phi':
+            # the success payload of "early-return errors | Ok(x)" is x
+            good = [x for x in v[1] if not _err_like(x)]
+            if good and len(good) < len(v[1]):
+                return _phi([self.mk_unwrap(x, d + 1) for x in good])
         return ('unwrap', v)
 
     def _ok_core(self, v):
@@ -538,6 +552,13 @@ def value_call_name(call):
             return call.decl
     return call.name
 
+
+
+def _err_like(x):
+    """a value that can only be a failure: Err(..) / None literal, or the residual conversion of `?`"""
+    if x[0] == 'agg' and x[2] in ('Err', 'None') and x[1] in ('std::result::Result', 'std::option::Option'):
+        return True
+    return x[0] == 'call' and x[1].endswith('FromResidual::from_residual')
 
 
 def canon(v):
